@@ -2,13 +2,13 @@
    Statements only; proofs in Gen/ConfigThm.v, ConfigThm2.v, ConfigThmAlias.v.  The leaf rule
    (DefaultValue.assign_to_if_not_default), the body of deep_update, cpp _validate_language_options,
    the cpp option groups and the CLI wiring are regenerated from /repo into Generated/Gen_C13.v. *)
-From Verif Require Import Config ConfigAlias ConfigThm ConfigThm2 ConfigThm3 ConfigThm4 ConfigThm5 ConfigThmProc ConfigThmAlias.
+From Verif Require Import Config ConfigAlias ConfigThm ConfigThm2 ConfigThm3 ConfigThm4 ConfigThm5 ConfigThmProc ConfigThmAlias ConfigFixState.
 Require Import List Bool.
 Import ListNotations.
 Open Scope N_scope.
 
 (* the model of deep_update solves the recursion equation translated from the Python source *)
-Theorem c13_model_is_translated_deep_update : forall t s, du t s = deep_update_step du t s.
+Theorem c13_model_is_translated_deep_update : forall t s, wf s = true -> du t s = deep_update_step du t s.
 Proof. exact du_satisfies_translated_equation. Qed.
 Print Assumptions c13_model_is_translated_deep_update.
 
@@ -190,10 +190,10 @@ Proof. exact documented_groups_covered_ok. Qed.
 Print Assumptions c13_cpp_documented_groups_covered.
 
 (* values, not only keys: every documented (shorthand, key, value) of docs/languages.rst is what the group regenerated from
-   properties.yaml applies, except the recorded documentation defect F-DOC-STDGROUP (c++17-pmr / allocator_include); every
+   properties.yaml applies (F-DOC-STDGROUP was fixed in 544e429, no exemption is left); every
    shorthand of properties.yaml is documented and vice versa *)
 Theorem c13_cpp_documented_group_values : 
-  forallb known_doc_mismatch doc_value_mismatches = true
+  doc_value_mismatches = []
   /\ length cpp_documented_groups = length cpp_std_groups
   /\ forallb (fun ng => dmem (fst ng) cpp_documented_groups) cpp_std_groups = true.
 Proof. exact documented_group_values_agree. Qed.
@@ -311,6 +311,45 @@ Theorem c13_raw_getter_spec : forall sections section k d, section_ok sections s
   end.
 Proof. exact raw_spec. Qed.
 Print Assumptions c13_raw_getter_spec.
+
+(* sub-maps that are ONE object inside a source (YAML anchors, one dict under two keys): the heap model expresses them (dcv,
+   hload_dag, memo-faithful hdeepcopy).  With the plain deepcopy the copy keeps the internal sharing and a later source changes a
+   key it never mentions (F-CFG-ALIASMAP); with the copy rebuilt key by key it does not.  Which of the two the code does is the
+   regenerated fact deep_update_rebuilds_copy (see the fix state below).  A universally quantified statement for the rebuilt
+   copy on the heap model is NOT proved; the correspondence run compares the heap model with deep_update on random shared documents. *)
+Theorem c13_aliased_submap_changes_unmentioned_key :
+  untouched [[101]; [98]; [107]] (dag_expand 8 [] am_src2) = true
+  /\ lookup [[101]; [98]; [107]] (fst (hmerge_dag_scenario true false am_base [am_src1])) = Some (Leaf false (AInt 1))
+  /\ lookup [[101]; [98]; [107]] (fst (hmerge_dag_scenario true false am_base [am_src1; am_src2])) = Some (Leaf false (AInt 2)).
+Proof. exact aliased_submap_changes_unmentioned_key. Qed.
+Print Assumptions c13_aliased_submap_changes_unmentioned_key.
+
+Theorem c13_rebuilt_copy_keeps_unmentioned_key :
+  lookup [[101]; [98]; [107]] (fst (hmerge_dag_scenario true true am_base [am_src1; am_src2])) = Some (Leaf false (AInt 1))
+  /\ lookup [[101]; [97]; [107]] (fst (hmerge_dag_scenario true true am_base [am_src1; am_src2])) = Some (Leaf false (AInt 2))
+  /\ snd (hmerge_dag_scenario true true am_base [am_src1; am_src2])
+     = [dag_expand 8 [(1, DNode 1 [([107], DLeaf false (AInt 1))])] am_src1; dag_expand 8 [] am_src2].
+Proof. exact rebuilt_copy_keeps_unmentioned_key. Qed.
+Print Assumptions c13_rebuilt_copy_keeps_unmentioned_key.
+
+(* `_strip_default_markers` (F-CFG-WRAPPER fix): afterwards no DefaultValue marker is left at any depth of what the context
+   holds, and every lookup gives the same value without its marking *)
+Theorem c13_stripped_sections_have_no_markers : forall s, all_explicit (Node (strip_sections s)) = true.
+Proof. exact stripped_sections_have_no_markers. Qed.
+Print Assumptions c13_stripped_sections_have_no_markers.
+
+Theorem c13_strip_markers_lookup : forall p v, lookup p (strip_markers v) = option_map strip_markers (lookup p v).
+Proof. exact strip_markers_lookup. Qed.
+Print Assumptions c13_strip_markers_lookup.
+
+(* ---- fix state: obligations on the regenerated facts (reflexivity; a regression or an unannounced landing fails here) ---- *)
+Example c13_fix_F_CFG_ALIAS_landed : deep_update_copies_deeply = true.            Proof. reflexivity. Qed.
+Example c13_fix_F_CFG_REUSE_landed : create_detaches_config = true.               Proof. reflexivity. Qed.
+(* pending fixes: expected state in Gen/ConfigFixState.v (flip there when landing the patch) *)
+Example c13_fix_F_CFG_ALIASMAP_state : deep_update_rebuilds_copy = expect_rebuilds_copy.                         Proof. reflexivity. Qed.
+Example c13_fix_F_CFG_WRAPPER_state : create_strips_default_markers = expect_strips_default_markers.            Proof. reflexivity. Qed.
+Example c13_fix_F_CFG_EMPTYDOC_state : yaml_empty_document_is_identity = expect_empty_document_is_identity.     Proof. reflexivity. Qed.
+Example c13_fix_F_CFG_REPEATC_state : cli_configuration_accumulates = expect_configuration_accumulates.         Proof. reflexivity. Qed.
 
 (* ---- non-vacuity: the hypotheses are satisfiable and the conclusions discriminate ---------------- *)
 Definition ex_base : cv := Node [([97], Leaf true (AInt 1)); ([98], Leaf false (AInt 2)); ([110], Node [([120], Leaf false (AInt 0))])].
